@@ -312,3 +312,342 @@ def err6_no_panic_on_a_fallible_result(P, R, L, rule="ERR-6"):
                     ("ok: " + row[0][2]) if row else "%s can fail; its Err panics at line %s" % (nm, pan[0].t.get("line")))
     R.call_sites += sites
     R.floor(rule, "unwrap / expect sites of Results examined", n, 30)
+
+
+# ------------------------------------------------------------------------------------------- BSRCH-2 a seek that keeps the cursor does so only on an exact hit
+BLOCK_SEEK = "<tables::block::BlockIter<K> as iterator::RainDbIterator>::seek"
+
+
+def bsrch2_block_seek_shortcut(P, R, L, rule="BSRCH-2"):
+    """BlockIter::seek may leave the cursor where it is (return without storing `current_index`) only when the entry under
+    the cursor EQUALS the target: every store-free path to a return passes the true edge of an equality test between the current
+    key and the target parameter (`==`, or the Equal arm of a cmp).  A wider "already there" test has to prove that the
+    predecessor is strictly smaller, and an internal key equal to the predecessor is exactly the re-seek a scan makes."""
+    b = P.body(BLOCK_SEEK)
+    if b is None:
+        return R.missing_anchor(rule, BLOCK_SEEK)
+    R.analysed(b)
+    stores = [s[0] for s in field_stores(b, "current_index")]
+    free = b.reachable(0, removed_nodes=stores)
+    exits = [x for x in b.return_blocks() if x in free]
+    if not exits:
+        return R.check(rule, BLOCK_SEEK + "|cursor-kept-only-on-an-exact-hit", bool(stores), where(b),
+                       "every return follows a store to current_index", "no store-free return (%d stores)" % len(stores))
+    is_target = lambda os_: any(o.kind == "param" and o.name == b.nargs for o in os_)
+    eq_true = []
+    for c in b.calls():
+        if b.is_cleanup(c.bb) or len(c.args) != 2:
+            continue
+        dn = c.declared_name or ""
+        if dn == "std::cmp::PartialEq::eq" and (is_target(origins(b, c.args[0])) != is_target(origins(b, c.args[1]))) and not c.dest["p"]:
+            for t in bool_tests(b, c.dest["l"]):
+                eq_true += t.ok_edges()
+        elif dn in ("std::cmp::Ord::cmp", "std::cmp::PartialOrd::partial_cmp") and \
+                (is_target(origins(b, c.args[0])) != is_target(origins(b, c.args[1]))) and not c.dest["p"] and dn.endswith("Ord::cmp"):
+            # match on the Ordering: the Equal (0) arm, when it is not shared with Less / Greater
+            for bb in range(b.n):
+                for st in b.blocks[bb]["stmts"]:
+                    if st["k"] == "assign" and st["rv"]["k"] == "discr" and st["rv"]["pl"]["l"] == c.dest["l"] and not st["pl"]["p"]:
+                        for sb in range(b.n):
+                            t = b.term(sb)
+                            if t["k"] == "switch" and t["discr"]["k"] in ("copy", "move") and t["discr"]["pl"]["l"] == st["pl"]["l"]:
+                                eqt = switch_target(t, 0)
+                                others = {tg for (v, tg) in t["targets"] if str(v) != "0"} | {t.get("otherwise")}
+                                if eqt is not None and eqt not in others:
+                                    eq_true.append((sb, eqt))
+    bad = [x for x in exits if not b.must_pass(x, through_edges=eq_true, through_nodes=stores)]
+    R.check(rule, BLOCK_SEEK + "|cursor-kept-only-on-an-exact-hit", not bad, where(b),
+            "a return that leaves current_index untouched is reached only over the true edge of `current key == target`",
+            "ok (%d equality edges, %d store-free returns)" % (len(eq_true), len(exits)) if not bad else
+            "a store-free return (block %s, line %s) is reachable without an equality test against the target" % (bad[0], b.term(bad[0]).get("line")))
+
+
+# ------------------------------------------------------------------------------------------- OWN-16 who may make the client iterator valid
+DBITER = "iterator::DatabaseIterator"
+VISIBILITY_LOOPS = ("iterator::DatabaseIterator::find_next_client_entry", "iterator::DatabaseIterator::find_prev_client_entry")
+
+
+def own16_client_iterator_validity(P, R, L, rule="OWN-16"):
+    """DatabaseIterator shows an entry only after one of the two collapse loops (find_next_client_entry /
+    find_prev_client_entry) accepted it: they apply the sequence filter (GRD-3), skip tombstones and shadowed versions (ITR-1/2).
+    `is_valid` is therefore set to true nowhere else - a positioning method that declares the landed record current by itself
+    shows entries newer than the snapshot, or a different user key's hidden version."""
+    n, bad = 0, []
+    for p, b in sorted(P.bodies.items()):
+        for (bb, i, st) in field_stores(b, "is_valid", adt=DBITER):
+            rv = st["rv"]
+            is_false = rv["k"] == "use" and rv["ops"][0].get("k") == "const" and str(rv["ops"][0].get("val")) in ("0", "false")
+            if is_false:
+                continue
+            n += 1
+            R.analysed(b)
+            host = p if b.kind != "closure" else (b.parent or p)
+            if host not in VISIBILITY_LOOPS:
+                bad.append("%s (line %s)" % (p, st.get("line")))
+    R.check(rule, DBITER + "|valid-only-through-the-collapse-loops", not bad and n > 0, "src/iterator.rs",
+            "stores of a non-false value into DatabaseIterator::is_valid occur only in find_next_client_entry / find_prev_client_entry",
+            "ok (%d stores)" % n if not bad else "also stored by %s" % bad)
+    R.floor(rule, "stores that make the client iterator valid", n, 2)
+
+
+# ------------------------------------------------------------------------------------------- GRD-9 (identity) the lock is on the file the path names
+INO = "std::os::unix::fs::MetadataExt::ino"
+
+
+def _is_ino(name):
+    return _last(name) == "ino" and "MetadataExt" in (name or "")
+
+
+def _ino_equal_edges(b):
+    """true edges of `x.ino() == y.ino()` comparisons in b (both operands are results of MetadataExt::ino)"""
+    is_ino = lambda os_: bool(os_) and all(o.kind == "call" and _is_ino(o.name) for o in os_)
+    out = []
+    for c in comparisons(b):
+        if c.op == "eq" and is_ino(c.lhs_origins()) and is_ino(c.rhs_origins()):
+            out += [(c.bb, t) for t in c.true_t]
+        elif c.op == "ne" and is_ino(c.lhs_origins()) and is_ino(c.rhs_origins()):
+            out += [(c.bb, t) for t in c.false_t]
+    return out
+
+
+def _ok_blocks(b):
+    return [bb for bb in range(b.n) if not b.is_cleanup(bb) for st in b.blocks[bb]["stmts"]
+            if st["k"] == "assign" and st["pl"]["l"] == 0 and not st["pl"]["p"] and st["rv"]["k"] == "aggregate" and st["rv"].get("variant") == "Ok"]
+
+
+def grd9_lock_file_identity(P, R, L, rule="GRD-9"):
+    """flock is tied to the inode, the database to the path.  destroy_database unlinks LOCK while it holds the lock; an opener
+    that opened the file before the unlink is granted the lock on the nameless inode as soon as destroy releases it, and the next
+    opener creates and locks a fresh LOCK: two owners.  Every disk-backed lock_file therefore returns Ok(FileLock) only after
+    it compared the inode of the file it locked with the inode the path names NOW (after the lock was granted), over the equal
+    edge; the comparison may live in a helper whose Ok is tested."""
+    lock_file = "fs::traits::FileSystem::lock_file"
+    # function-at-a-time view: a `?`-returning helper inlined into its `?`-using caller creates the infeasible path "Err in the
+    # helper, Continue in the caller", which would bypass the comparison
+    W = P.bodies_as_written
+    impls = [im for im in P.trait_impls.get(lock_file, []) if im in W and "fs_disk" in W[im].file]
+    R.floor(rule, "disk-backed lock_file implementations (identity)", len(impls), 2)
+    for im in impls:
+        b = W[im]
+        R.analysed(b)
+        locks = [c for c in b.calls() if not b.is_cleanup(c.bb) and (c.name or "").endswith("::try_lock_exclusive")]
+        okb = _ok_blocks(b)
+        if not locks or not okb:
+            R.check(rule, "%s|locked-file-is-the-one-the-path-names" % im, False, where(b), "try_lock_exclusive and an Ok return", "locks %d, Ok blocks %d" % (len(locks), len(okb)))
+            continue
+        start = locks[0].target
+        edges = list(_ino_equal_edges(b))       # the comparison written in place (or inlined from an unreviewed helper)
+        how = "in place" if edges else ""
+        for c in b.calls():
+            if b.is_cleanup(c.bb) or c.bb not in b.reachable(start) or c.dest["p"]:
+                continue
+            h = W.get(c.t.get("resolved") or "")
+            if h is None or c.t.get("dyn"):
+                continue
+            he = _ino_equal_edges(h)
+            hok = _ok_blocks(h)
+            if not he or not hok:
+                continue
+            R.analysed(h)
+            # inside the helper: Ok only over the equal edge; one inode comes from the open file, the other from the path
+            sound = all(h.must_pass(x, through_edges=he) for x in hok)
+            metas = {o.name for cc in h.calls() if _is_ino(cc.name) and cc.args for o in follow(h, cc.args[0], through=ADAPTERS + ("branch",)) if o.kind == "call"}
+            two_sources = any(n.endswith("fs::File::metadata") for n in metas) and any(n.endswith("fs::metadata") or n.endswith("fs::symlink_metadata") for n in metas)
+            # the file handed to the helper is the locked file
+            same_file = any({(o.kind, o.name, o.site.bb if o.site else None) for a in c.args for o in origins(b, a) if o.kind == "call"} &
+                            {(o.kind, o.name, o.site.bb if o.site else None) for o in origins(b, locks[0].args[0]) if o.kind == "call"} for _ in (0,))
+            if sound and two_sources and same_file:
+                for t in result_tests(b, c.dest["l"]):
+                    edges += t.ok_edges()
+                how = "helper %s" % h.path
+        ok = bool(edges) and all(b.must_pass(x, through_edges=edges, start=start) for x in okb)
+        R.check(rule, "%s|locked-file-is-the-one-the-path-names" % im, ok, where(b),
+                "Ok(FileLock) is returned only after the locked file's inode was found equal to the inode the path names after the lock was granted",
+                "ok (%s)" % how if ok else ("no inode comparison between the lock and the Ok return" if not edges else "an Ok return bypasses the comparison"))
+
+
+# ------------------------------------------------------------------------------------------- EXP-1 the level-0 input expansion is a fixpoint over the widened range
+EXPAND = "versioning::version::Version::get_overlapping_compaction_inputs"
+
+
+def exp1_level0_expansion_fixpoint(P, R, L, rule="EXP-1"):
+    """Version::get_overlapping_compaction_inputs at level 0 (LevelDB's GetOverlappingInputs): files overlap each other, so a file
+    that is added may widen the searched user-key range, and the search has to be repeated with the wider range.  Decided:
+    (a) the four comparisons between a bound of the current file and the range are made against the WIDENED range (the two
+    accumulators), never against the caller's original bounds; (b) an iteration that adds a file and goes on without restarting
+    has found that the file widens neither side: it passed the false edge of `file start < range start` (or the unbounded edge) and
+    the false edge of `file end > range end` (or stored the wider end); (c) the true edge of `file start < range start` stores the
+    new start and restarts the scan (index = 0), the true edge of `file end > range end` stores the new end."""
+    from .. import role
+    from ..rules import SWAP
+    b = P.body(EXPAND)
+    if b is None:
+        return R.missing_anchor(rule, EXPAND)
+    R.analysed(b)
+    accs = role.find_accumulators(b)
+    S = [a for a in accs if a.colour == "SMALL"]
+    E = [a for a in accs if a.colour == "LARGE"]
+    if len(S) != 1 or len(E) != 1:
+        return R.check(rule, EXPAND + "|accumulators", False, where(b), "one widening range start and one widening range end", "found %d / %d" % (len(S), len(E)))
+    S, E = S[0], E[0]
+    is_root = lambda acc, op: acc.local in roots(b, op, extra=role.COLOUR_TRANSPARENT)
+    file_col = lambda op: role.colour_of_origins([o for o in origins(b, op, transparent=role.COLOUR_TRANSPARENT) if o.kind == "call"])
+    sig = {}       # (file colour, rel, accumulator colour) -> [(true edges, false edges)], oriented as `file REL acc`
+    foreign = []
+    for c in comparisons(b):
+        for (fop, aop, swap) in ((c.lhs, c.rhs, False), (c.rhs, c.lhs, True)):
+            fc = file_col(fop)
+            if fc not in ("SMALL", "LARGE") or is_root(S, fop) or is_root(E, fop):
+                continue
+            acc = S if is_root(S, aop) else (E if is_root(E, aop) else None)
+            if acc is None:
+                if role.colour(b, aop) in ("SMALL", "LARGE") or any(o.kind == "param" for o in origins(b, aop)):
+                    foreign.append("line %s compares a file bound with %s" % (c.line, origins(b, aop)[:2]))
+                continue
+            rel = SWAP[c.op] if swap else c.op
+            sig.setdefault((fc, rel, acc.colour), []).append(([(c.bb, t) for t in c.true_t], [(c.bb, t) for t in c.false_t]))
+    # the same comparison written as an Option adapter over one side of the range: `range_start.map_or(false, |s| file_end < s)`.
+    # The Option must be the widening accumulator; over the caller's original bound it is a comparison with the unwidened range.
+    for call in b.calls():
+        if b.is_cleanup(call.bb) or _last(call.name) not in ("map_or", "is_some_and", "map_or_else", "is_none_or") or not call.args:
+            continue
+        acc = S if is_root(S, call.args[0]) else (E if is_root(E, call.args[0]) else None)
+        for cp in call.closure_args():
+            cl = P.bodies.get(cp)
+            if cl is None:
+                continue
+            R.analysed(cl)
+            for c in _value_comparisons(cl):
+                for (fop, aop, swap) in ((c.lhs, c.rhs, False), (c.rhs, c.lhs, True)):
+                    fo, ao = origins(cl, fop, transparent=role.COLOUR_TRANSPARENT), origins(cl, aop, transparent=role.COLOUR_TRANSPARENT)
+                    if not (any(o.kind == "upvar" for o in fo) and any(o.kind == "param" and o.name == 2 for o in ao)):
+                        continue
+                    # colour of the captured value: look it up in the parent where the closure is built
+                    fc = None
+                    for o in fo:
+                        if o.kind != "upvar":
+                            continue
+                        for a in call.args:
+                            for po in origins(b, a):
+                                if po.kind == "agg" and po.extra is not None and (po.extra[1]["rv"].get("closure") == cp):
+                                    rv = po.extra[1]["rv"]
+                                    fn_ = rv.get("fields") or []
+                                    if o.name in fn_:
+                                        fc = file_col(rv["ops"][fn_.index(o.name)])
+                    if fc not in ("SMALL", "LARGE"):
+                        continue
+                    if acc is None:
+                        foreign.append("line %s compares a file bound with the caller's original bound (%s over %s)" % (c.line, _last(call.name), origins(b, call.args[0])[:2]))
+                        continue
+                    rel = SWAP[c.op] if swap else c.op
+                    tr, fl = [], []
+                    if not call.dest["p"]:
+                        for t in bool_tests(b, call.dest["l"]):
+                            tr += t.ok_edges()
+                            fl += t.err_edges()
+                    sig.setdefault((fc, rel, acc.colour), []).append((tr, fl))
+    need = {("LARGE", "lt", "SMALL"): "file end < range start (file is before the range)",
+            ("SMALL", "gt", "LARGE"): "range end < file start (file is after the range)",
+            ("SMALL", "lt", "SMALL"): "file start < range start (widens the start)",
+            ("LARGE", "gt", "LARGE"): "file end > range end (widens the end)"}
+    missing = [v for k, v in need.items() if k not in sig]
+    R.check(rule, EXPAND + "|tests-use-the-widened-range", not missing and not foreign, where(b),
+            "the four file-vs-range comparisons are made against the widening accumulators",
+            "ok" if not missing and not foreign else "; ".join(["missing: " + m for m in missing] + foreign))
+    if missing:
+        return
+    pushes = [c for c in b.calls() if not b.is_cleanup(c.bb) and _last(c.name) == "push" and "Vec" in (c.name or "")]
+    if len(pushes) != 1:
+        return R.check(rule, EXPAND + "|fixpoint", False, where(b), "one push of the current file", "%d pushes" % len(pushes))
+    push = pushes[0]
+    after = b.reachable(push.target)
+    heads = [x for x in range(b.n) if x in after and b.dominates(x, push.bb)]
+    head = None
+    for x in heads:
+        if all(b.dominates(y, x) for y in heads):
+            head = x
+    if head is None:
+        return R.check(rule, EXPAND + "|fixpoint", False, where(b), "the push lies in a loop", "no loop head found")
+    restarts = [bb for bb in range(b.n) if not b.is_cleanup(bb) for st in b.blocks[bb]["stmts"]
+                if st["k"] == "assign" and not st["pl"]["p"] and st["rv"]["k"] == "use" and st["rv"]["ops"][0].get("k") == "const" and
+                str(st["rv"]["ops"][0].get("val")) == "0" and bb in after and b.local_ty(st["pl"]["l"]) == "usize" and
+                any(d[1] not in after or True for d in b.defs().get(st["pl"]["l"], [])) and st["pl"]["l"] in _index_locals(b, head)]
+    s_stores = [d[1] for d in S.loop_defs]
+    e_stores = [d[1] for d in E.loop_defs]
+
+    def edges(key, true_side):
+        out = []
+        for (tr, fl) in sig[key]:
+            out += tr if true_side else fl
+        return out
+    ws_t, ws_f = edges(("SMALL", "lt", "SMALL"), True), edges(("SMALL", "lt", "SMALL"), False)
+    we_t, we_f = edges(("LARGE", "gt", "LARGE"), True), edges(("LARGE", "gt", "LARGE"), False)
+    # edges on which a side of the caller's range is unbounded (None): nothing to widen there
+    none_s, none_e = _none_edges(b, "start", after), _none_edges(b, "end", after)
+    level_nonzero = []
+    for c in comparisons(b):
+        if c.bb in after and any(o.kind == "param" and o.name == 2 for o in c.lhs_origins()) and c.rhs.get("k") == "const" and str(c.rhs.get("val")) == "0":
+            level_nonzero += [(c.bb, t) for t in (c.true_t if c.op == "ne" else c.false_t if c.op == "eq" else [])]
+    ok_a = b.must_pass(head, through_nodes=restarts, through_edges=ws_f + none_s + level_nonzero, start=push.target)
+    ok_b = b.must_pass(head, through_nodes=restarts + e_stores, through_edges=we_f + none_e + level_nonzero, start=push.target)
+    R.check(rule, EXPAND + "|an-iteration-that-goes-on-widens-neither-side", ok_a and ok_b, where(b),
+            "from the push of a level-0 file the next iteration is reached only through a restart, or over the false / unbounded edges of BOTH widening tests (a wider end may be stored without a restart)",
+            "ok" if ok_a and ok_b else "the %s test can be skipped on the way to the next iteration" % ("start-widening" if not ok_a else "end-widening"))
+    ok_c = bool(ws_t) and all(b.must_pass(head, through_nodes=[x for x in restarts], start=t) and b.must_pass(head, through_nodes=s_stores, start=t) for (_, t) in ws_t)
+    ok_d = bool(we_t) and all(b.must_pass(head, through_nodes=e_stores, start=t) for (_, t) in we_t)
+    R.check(rule, EXPAND + "|a-widening-file-widens", ok_c and ok_d and bool(restarts), where(b),
+            "`file start < range start` stores the new start and restarts the scan; `file end > range end` stores the new end",
+            "ok" if ok_c and ok_d else "start: %s, end: %s (restart blocks %s)" % (ok_c, ok_d, restarts))
+
+
+class _VCmp:
+    def __init__(self, op, lhs, rhs, line):
+        self.op, self.lhs, self.rhs, self.line = op, lhs, rhs, line
+
+
+def _value_comparisons(body):
+    """every comparison in body, whether or not its result steers a switch there (a closure usually just returns it)"""
+    from ..rules import BINOPS, CMP_CALLS
+    from ..cfg import strip_generics
+    out = []
+    for bb in range(body.n):
+        if body.is_cleanup(bb):
+            continue
+        for st in body.blocks[bb]["stmts"]:
+            if st["k"] == "assign" and st["rv"]["k"] == "binop" and st["rv"]["op"] in BINOPS:
+                out.append(_VCmp(BINOPS[st["rv"]["op"]], st["rv"]["ops"][0], st["rv"]["ops"][1], st.get("line")))
+        t = body.term(bb)
+        if t["k"] == "call" and len(t["args"]) == 2:
+            nm = strip_generics(t.get("resolved") or t.get("callee"))
+            dn = strip_generics(t.get("callee"))
+            op = CMP_CALLS.get(nm) or CMP_CALLS.get(dn)
+            if op is None and dn and dn.startswith("std::cmp::PartialOrd::"):
+                op = {"lt": "lt", "le": "le", "gt": "gt", "ge": "ge"}.get(dn.rsplit("::", 1)[1])
+            if op is None and dn and dn.startswith("std::cmp::PartialEq::"):
+                op = {"eq": "eq", "ne": "ne"}.get(dn.rsplit("::", 1)[1])
+            if op:
+                out.append(_VCmp(op, t["args"][0], t["args"][1], t.get("line")))
+    return out
+
+
+def _index_locals(b, head):
+    """locals compared with a len() in the loop head (the scan index)"""
+    out = set()
+    for c in comparisons(b):
+        if c.bb in b.reachable(head) and any(o.kind == "call" and _last(o.name) == "len" for o in c.rhs_origins() + c.lhs_origins()):
+            for op in (c.lhs, c.rhs):
+                out |= set(roots(b, op))
+    return out
+
+
+def _none_edges(b, field, within):
+    """edges (inside `within`) on which key_range.<field> is None"""
+    out = []
+    for c in b.calls():
+        if b.is_cleanup(c.bb) or c.bb not in within or _last(c.name) not in ("is_some", "is_none") or not c.args or c.dest["p"]:
+            continue
+        if not any(o.kind == "param" and field in o.path for o in origins(b, c.args[0])):
+            continue
+        for t in bool_tests(b, c.dest["l"]):
+            out += t.err_edges() if _last(c.name) == "is_some" else t.ok_edges()
+    return out
